@@ -1169,8 +1169,11 @@ pub fn crash_family(prop: &str) -> i32 {
         let (cs, tb) = (gw.cs(), gw.tb());
         let w = |off: u64, len: u64, tag: u32| Op::Write { off, len: len as usize, tag };
         let growth: Vec<(ImageSet, Geo, Vec<Op>, usize, usize)> = vec![
-            (crate::extra::rb63_edge_image(), crate::extra::g9_wide(140), vec![w(8000 * cs, cs, 1), w(8001 * cs, cs, 2), w(8010 * cs, 3 * cs, 3), w(8200 * cs, 70 * cs, 6), Op::Flush, Op::Sync], if thorough { 4 } else { 3 }, 1),
+            (crate::extra::rb63_edge_image(), crate::extra::g9_wide(140), vec![w(8000 * cs, cs, 1), w(8001 * cs, cs, 2), w(8010 * cs, 3 * cs, 3), w(8200 * cs, 70 * cs, 6), Op::Check, Op::Flush, Op::Sync], if thorough { 4 } else { 3 }, 1),
             (crate::extra::rt_edge_image(), crate::extra::g9_wide(140), vec![w(8000 * cs, 3 * cs, 1), w(8010 * cs, cs, 2), Op::Flush, Op::Sync], 3, 3),
+            // three refblocks over a 2-slice refblock cache: check() walks them all and evicts the slice an
+            // allocation has just dirtied; the new mapping sits in an L2 table that is on disk already
+            (crate::extra::filled_image("G9w-three-rb", "three-rb", 4, 150), crate::extra::g9_wide(4), vec![w(190 * cs, cs, 1), w(191 * cs, cs, 2), Op::Check, Op::Flush, Op::Sync], if thorough { 5 } else { 3 }, 3),
             (crate::extra::short_l1_two_image(), crate::extra::g9_wide(192), vec![w(130 * tb, cs, 4), w(64 * tb, cs, 2), w(191 * tb, 2 * cs, 5), Op::Flush, Op::Sync], 3, 3),
         ];
         for (img, gw, alpha, depth, crash_k) in growth {
@@ -1327,6 +1330,9 @@ pub fn faulted_concurrent_part(thorough: bool, prop: &str) -> (Vec<Violation>, V
         ("write||flush", warm.clone(), vec![vec![w(cs, cs, 0x11)], vec![Op::Flush]]),
         ("discard||write", warm.clone(), vec![vec![Op::Discard { off: 0, len: cs }], vec![w(2 * cs, cs, 0x11)]]),
     ];
+    // three loaders of one L2 slice, two of the loads fail (pairs of failing requests, see below)
+    let triple_cold = scn.len();
+    scn.push(("cold-read||cold-read||cold-read", cold.clone(), vec![vec![r(0, bs)], vec![r(bs, bs)], vec![r(cs, bs)]]));
     if prop == "C04" {
         // crash states of a flush that is retried after one of its requests failed, with requests
         // completing in any order (two dirty slices of an L2 table that is on disk already)
@@ -1347,31 +1353,45 @@ pub fn faulted_concurrent_part(thorough: bool, prop: &str) -> (Vec<Violation>, V
         .map(|(n, setup, tasks)| SchedScenario { name: format!("faulted:{}", n), img: img.clone(), cfg: g.cfg_small(), cfg_name: "small".into(), setup, tasks, fused: true })
         .collect();
     // positions: up to the number of requests of the default schedule (+ a few)
-    let mut jobs: Vec<(usize, usize)> = vec![];
+    let mut jobs: Vec<(usize, usize, Option<usize>)> = vec![];
     for (si, sc) in scenarios.iter().enumerate() {
         let n = match sc.execute(&[]) {
             Ok(x) => x.world.sim.borrow().reqs.len() - x.log_start,
             Err(_) => 0,
         };
         for k in 0..(n + 2).min(48) {
-            jobs.push((si, k));
+            jobs.push((si, k, None));
+            if prop != "C04" && si == triple_cold {
+                for k2 in k + 1..(n + 2).min(48) {
+                    jobs.push((si, k, Some(k2)));
+                }
+            }
         }
     }
     let deadline = deadline_in(if thorough { 300 } else { 15 });
     let want: Vec<&str> = if prop == "C04" { vec!["C04"] } else { vec!["C17", "C06", "C02"] };
     let results: Vec<(u64, Vec<Violation>)> = jobs
         .par_iter()
-        .map(|&(si, k)| {
+        .map(|&(si, k, k2)| {
             let sc = &scenarios[si];
             let mut viols: Vec<Violation> = vec![];
             crate::sched::FAIL_KTH.with(|c| c.set(Some(k)));
+            crate::sched::FAIL_KTH2.with(|c| c.set(k2));
             let mut execs = 0u64;
-            for b in 0..=(if thorough { 2 } else { 1 }) {
+            // the three loaders need two deviations (second loader queued behind the first, third one
+            // arriving while the second loads)
+            for b in 0..=(if thorough || (prop != "C04" && si == triple_cold) { 2 } else { 1 }) {
                 let r = explore(sc, b, 3_000, deadline, |sc, x| {
+                    if std::env::var("QMC_DEBUG_FC").is_ok() && x.choices.iter().all(|c| *c == 0) {
+                        eprintln!("{} k={} k2={:?}: {:?} trace={:?} log={:?}", sc.name, k, k2, x.records.iter().map(|r| format!("T{} {} -> {}", r.task, r.op.short(), r.res.short())).collect::<Vec<_>>(), x.trace, x.world.sim.borrow().log_lines(x.log_start));
+                    }
                     let o = lin::judge(sc, x, &want);
                     for mut v in o.violations {
                         v.class = format!("concurrent-fault:{}:{}", v.prop, v.class);
-                        v.detail = format!("{} [request {} of the concurrent phase failed]", v.detail, k);
+                        v.detail = match k2 {
+                            None => format!("{} [request {} of the concurrent phase failed]", v.detail, k),
+                            Some(k2) => format!("{} [requests {} and {} of the concurrent phase failed]", v.detail, k, k2),
+                        };
                         v.prop = prop.to_string();
                         if viols.iter().filter(|y| y.class == v.class).count() < 2 {
                             viols.push(v);
@@ -1390,6 +1410,7 @@ pub fn faulted_concurrent_part(thorough: bool, prop: &str) -> (Vec<Violation>, V
                 }
             }
             crate::sched::FAIL_KTH.with(|c| c.set(None));
+            crate::sched::FAIL_KTH2.with(|c| c.set(None));
             (execs, viols)
         })
         .collect();
@@ -1400,7 +1421,7 @@ pub fn faulted_concurrent_part(thorough: bool, prop: &str) -> (Vec<Violation>, V
         viols.extend(v);
     }
     (viols, json!({"scenarios": scenarios.len(), "fault_positions": jobs.len(), "executions": execs,
-        "rule": "for each scenario of two concurrent calls and each position k: the k-th request submitted in the concurrent phase fails, every schedule within the deviation bound; the backend heals; end state judged (no panic/deadlock, per-block linearizability with failed calls optional, content equal after flush + reopen)"}))
+        "rule": "for each scenario of two concurrent calls and each position k: the k-th request submitted in the concurrent phase fails (for the three cold readers of one slice also every pair of requests), every schedule within the deviation bound; the backend heals; end state judged (no panic/deadlock, per-block linearizability with failed calls optional, content equal after flush + reopen)"}))
 }
 
 /// every history of the fault alphabet x every single request failing, heal, flush until Ok,
